@@ -44,6 +44,7 @@ NEGATIVES = ["missing-partial", "partial+1", "partial-bitflip", "partial-negated
 KN = [(k, n) for n in range(2, 6) for k in range(1, n + 1)]
 
 GATES = {
+    "mixed-sighash-flags": ["leaf-spend:mixed-sighash-flags"],
     "monitors-ran": [
         "MuSigTapScript.__init__", "MuSigTapScript.nonce_sums", "MuSigTapScript.compute_r", "MuSigTapScript.compute_k",
         "MuSigTapScript.sign", "MuSigTapScript.get_signature", "MuSigTapScript.generate_nonces",
@@ -603,8 +604,13 @@ def run_tree(ctx, spec):
             continue
         sigs = []
         hash_type = spec.get("hash_type", 0)  # 0 = SIGHASH_DEFAULT (64-byte signatures), 1 = SIGHASH_ALL (65 bytes)
-        for i in subset:
-            so = outcome(tx.get_sig_taproot, 0, privs[i], 1, hash_type)
+        # the signers of one leaf may each choose their own sighash flag (mixed 64- and 65-byte signatures)
+        hts = [hash_type] * len(subset)
+        if spec.get("mixed_flags") and len(subset) >= 2:
+            hts = [[0, 1, 0x81, 2, 0x82][(j + spec.get("flag_offset", 0)) % 5] for j in range(len(subset))]
+            ctx.count("leaf-spend:mixed-sighash-flags")
+        for j, i in enumerate(subset):
+            so = outcome(tx.get_sig_taproot, 0, privs[i], 1, hts[j])
             if so[0] == "ok":
                 sigs.append(so[1])
         if spec.get("empty_sig"):
@@ -618,11 +624,15 @@ def run_tree(ctx, spec):
         else:
             # cross-check the accepted witness with the reference verifier
             items = tx.tx_ins[0].witness.items
-            with contracts.suspended():
-                msg = tx.sig_hash(0, hash_type)
             keys = sorted(want)
-            siglen = 65 if hash_type else 64
-            valid = sum(1 for key, sig in zip(keys, reversed(items[:-2])) if len(sig) == siglen and ec.schnorr_verify(key, msg, sig[:64]))
+            valid = 0
+            for key, sig in zip(keys, reversed(items[:-2])):
+                if len(sig) not in (64, 65):
+                    continue
+                with contracts.suspended():
+                    msg = tx.sig_hash(0, 0 if len(sig) == 64 else sig[-1])
+                if ec.schnorr_verify(key, msg, sig[:64]):
+                    valid += 1
             if valid != k or not rt.verify_commitment(items[-1], items[-2], spk.commands[1]):
                 ctx.violation("leaf-spend-accepted-but-reference-rejects", f"{valid} of {k} signatures valid by the reference", case)
     # MuSig leaves (k >= 2)
@@ -698,7 +708,7 @@ def gen_tree(rng, k, n, tier, serial):
     return {
         "secrets": secrets, "k": k, "subsets": [list(s) for s in allsubs[:nsp]], "nonces": [rng.randrange(1, ec.N) for _ in range(4 * n + 4)],
         "musig": True, "keypath": serial % 2 == 0 or tier == "thorough", "everything": n <= 3,
-        "hash_type": (serial // 2) % 2, "empty_sig": serial % 3 == 1,
+        "hash_type": (serial // 2) % 2, "empty_sig": serial % 3 == 1, "mixed_flags": serial % 2 == 1 and k >= 2, "flag_offset": serial,
     }
 
 
